@@ -320,8 +320,10 @@ func TestVerifC15(t *testing.T) {
 				if rng.Intn(2) == 0 {
 					cl = 1 + rng.Intn(len(blk))
 				}
-				if cl > K {
-					cl = K
+				// the server's chunk limit is its own (Hadoop: buffer size minus the codec's overhead - 218 422 bytes for the
+				// default 256 KiB buffer, more for a larger one), not the client's
+				if srvMax := []int{K + 1, 2*K + 3, 1 << 30}[(v.Len+len(srv))%3]; cl > srvMax {
+					cl = srvMax
 				}
 				enc := gsnappy.Encode(nil, blk[:cl])
 				srv = binary.BigEndian.AppendUint32(srv, uint32(len(enc)))
@@ -332,6 +334,17 @@ func TestVerifC15(t *testing.T) {
 		back, err = comp.decompressCellblocks(srv)
 		if err != nil || !bytes.Equal(back, p) {
 			bad("snappy-server-stream", "len=%d: client cannot read a conforming multi-block server stream: %v", v.Len, err)
+		}
+		if v.Len > K {
+			// ... and the whole payload as ONE chunk of a server whose buffer is large enough (for K+1: Hadoop's default)
+			enc := gsnappy.Encode(nil, p)
+			one := binary.BigEndian.AppendUint32(nil, uint32(len(p)))
+			one = binary.BigEndian.AppendUint32(one, uint32(len(enc)))
+			one = append(one, enc...)
+			back, err = comp.decompressCellblocks(one)
+			if err != nil || !bytes.Equal(back, p) {
+				bad("snappy-server-stream", "len=%d: client cannot read a conforming server stream whose single chunk holds %d bytes: %v", v.Len, v.Len, err)
+			}
 		}
 		// truncations / corruptions of the length fields: error or the same payload, never other data
 		if len(got) > 8 {
